@@ -1,14 +1,20 @@
 """Kani leaf harnesses (DESIGN 2.5): the functions of the emitted runtime that Verus cannot ingest.
 
 The REAL text of CstIndex (+ its two conversions), Parser::is_skipped/peek/peek_left/span and
-CstData::span is cut out of a parser emitted from /repo's current tree and included, unchanged,
-into /verif/kani (the structs around them are cut down to the fields these functions read).
-  * CstIndex round trip and bound: loop-free, full domain  -> complete proof (E2)
-  * peek / peek_left / span against their specs: <= 4 tokens, unwind 7 -> BOUNDED (E3)
+CstData::span is cut out of a parser emitted from /repo's current tree (or of the shipped
+src/frontend/generated.rs) and included, unchanged, into a copy of /verif/kani (the structs
+around them are cut down to the fields these functions read).  The reference skip set used by
+the specs comes from the GRAMMAR's `skip` declaration, not from the emitted text.
+  * CstIndex round trip and bound: loop-free, full domain          -> complete proof (E2)
+  * peek / peek_left / span vs. their specs: <= 4 tokens, unwind 7  -> BOUNDED (E3)
+  * CstData::span vs. its spec: <= 3 nodes, unwind 5                -> BOUNDED (E3)
 """
+import concurrent.futures as cf
+import hashlib
 import json
 import os
 import re
+import shutil
 import subprocess
 import sys
 import time
@@ -16,10 +22,14 @@ import time
 HERE = os.path.dirname(os.path.abspath(__file__))
 VERIF = os.path.dirname(HERE)
 sys.path.insert(0, HERE)
-from rsx import Index
+from rsx import Index   # noqa: E402
 
-HARNESSES = [("cidx_roundtrip", "complete"), ("cidx_bound", "complete"),
-             ("peek_matches_spec", "bounded"), ("peek_left_matches_spec", "bounded"), ("span_matches_spec", "bounded"), ("cst_span_matches_spec", "bounded")]
+HARNESSES = [("cidx_roundtrip", "complete", "E2"), ("cidx_bound", "complete", "E2"),
+             ("peek_matches_spec", "bounded", "E3"), ("peek_left_matches_spec", "bounded", "E3"),
+             ("span_matches_spec", "bounded", "E3"), ("cst_span_matches_spec", "bounded", "E3")]
+BOUNDS = {"peek_matches_spec": "<= 4 tokens, lookahead <= 4, unwind 7", "peek_left_matches_spec": "<= 4 tokens, lookbehind <= 4, unwind 7",
+          "span_matches_spec": "<= 4 tokens, unwind 7", "cst_span_matches_spec": "<= 3 nodes, unwind 5",
+          "cidx_roundtrip": "none (loop-free, all x < 2^48)", "cidx_bound": "none (loop-free, all [u8;6])"}
 
 
 class Lost(Exception):
@@ -56,29 +66,97 @@ def extract(gen):
     return "".join(out)
 
 
-def run(gen, timeout=900):
-    d = os.path.join(VERIF, "kani")
-    res = {"harnesses": {}, "status": "ok"}
+def declared_skips(grammar_text):
+    """Token names of the grammar's `skip` declarations (symbols are resolved through `token`)."""
+    g = re.sub(r"//[^\n]*", "", grammar_text)
+    g = re.sub(r"/\*.*?\*/", "", g, flags=re.S)
+    sym = dict((s, n) for n, s in re.findall(r"\b([A-Z]\w*)\s*=\s*('(?:[^'\\]|\\.)*')", g))
+    # replace every quoted symbol by a placeholder so that `;` and keywords inside quotes do not count
+    lits = []
+
+    def keep(m):
+        lits.append(m.group(0))
+        return " \x00%d\x00 " % (len(lits) - 1)
+    g2 = re.sub(r"'(?:[^'\\]|\\.)*'", keep, g)
+    names = []
+    for stmt in g2.split(";"):
+        w = stmt.split()
+        if not w or w[0] != "skip":
+            continue
+        for it in w[1:]:
+            m = re.fullmatch(r"\x00(\d+)\x00", it)
+            n = sym.get(lits[int(m.group(1))]) if m else it
+            if n and re.fullmatch(r"[A-Za-z_]\w*", n) and n not in names:
+                names.append(n)
+    return names
+
+
+def tokens_rs(skips, emitted_skip_names):
+    extra = [n for n in emitted_skip_names if n not in skips and n not in ("Error", "EOF")]
+    names = ["EOF", "Error", "T0_", "T1_"] + list(skips) + extra
+    s = "#[derive(Debug, Copy, Clone, PartialEq, Eq)]\n#[allow(non_camel_case_types)]\npub enum Token { %s }\n" % ", ".join(names)
+    s += "pub const TOKENS: [Token; %d] = [%s];\n" % (len(names), ", ".join("Token::" + n for n in names))
+    s += "pub fn is_skip(t: Token) -> bool { matches!(t, Token::Error%s) }\n" % "".join(" | Token::" + n for n in skips)
+    return s
+
+
+def run(gen, grammar_text, tag="leaf", timeout=900):
+    """-> result dict; cached by content."""
+    src_dir = os.path.join(VERIF, "kani")
     try:
-        open(os.path.join(d, "src", "extracted.rs"), "w").write(extract(gen))
+        ext = extract(gen)
     except Lost as e:
         return {"status": "lost_anchor", "detail": str(e), "harnesses": {}}
-    env = dict(os.environ, CARGO_NET_OFFLINE="true", CARGO_TARGET_DIR=os.path.join(VERIF, ".cache", "kani_target"))
-    for h, kind in HARNESSES:
+    m = re.search(r"fn is_skipped\(token: Token\) -> bool \{\s*matches!\(token,([^)]*)\)", gen)
+    emitted = re.findall(r"Token::(\w+)", m.group(1)) if m else []
+    toks = tokens_rs(declared_skips(grammar_text), emitted)
+    lib = open(os.path.join(src_dir, "src", "lib.rs")).read()
+    key = hashlib.sha256((ext + "\0" + toks + "\0" + lib).encode()).hexdigest()[:24]
+    cdir = os.path.join(VERIF, ".cache", "results")
+    cpath = os.path.join(cdir, "kani_" + key + ".json")
+    if os.path.exists(cpath):
+        try:
+            r = json.load(open(cpath))
+            r["cached"] = True
+            return r
+        except ValueError:
+            pass
+    d = os.path.join(VERIF, ".cache", "kani_" + tag)
+    shutil.rmtree(d, ignore_errors=True)
+    os.makedirs(os.path.join(d, "src"))
+    os.makedirs(os.path.join(d, ".cargo"))
+    shutil.copy(os.path.join(src_dir, "Cargo.toml"), d)
+    shutil.copy(os.path.join(src_dir, ".cargo", "config.toml"), os.path.join(d, ".cargo"))
+    shutil.copy(os.path.join(src_dir, "src", "lib.rs"), os.path.join(d, "src"))
+    open(os.path.join(d, "src", "extracted.rs"), "w").write(ext)
+    open(os.path.join(d, "src", "tokens.rs"), "w").write(toks)
+    env = dict(os.environ, CARGO_NET_OFFLINE="true", CARGO_TARGET_DIR=os.path.join(VERIF, ".cache", "kani_target_" + tag))
+    res = {"harnesses": {}, "status": "ok", "cached": False}
+
+    def one(h):
+        name, kind, rule = h
         t0 = time.time()
         try:
-            r = subprocess.run(["cargo", "kani", "--harness", h], cwd=d, env=env, stdout=subprocess.PIPE, stderr=subprocess.STDOUT, text=True, timeout=timeout)
+            r = subprocess.run(["cargo", "kani", "--harness", name, "--target-dir", os.path.join(VERIF, ".cache", "kani_target_%s_%s" % (tag, name))],
+                               cwd=d, env=env, stdout=subprocess.PIPE, stderr=subprocess.STDOUT, text=True, timeout=timeout)
             out = r.stdout
         except subprocess.TimeoutExpired:
-            res["harnesses"][h] = {"kind": kind, "result": "timeout", "wall_s": timeout}
-            continue
+            return name, {"kind": kind, "rule": rule, "bound": BOUNDS[name], "result": "timeout", "wall_s": timeout}
         ok = "VERIFICATION:- SUCCESSFUL" in out
         fail = "VERIFICATION:- FAILED" in out
         checks = re.search(r"\*\* (\d+) of (\d+) failed", out)
-        res["harnesses"][h] = {"kind": kind, "result": "success" if ok else ("failed" if fail else "error"), "wall_s": round(time.time() - t0, 1),
-                               "checks": int(checks.group(2)) if checks else None, "tail": "" if ok else out[-1500:]}
+        failed = re.findall(r"(?m)^Failed Checks: (.*)$", out)
+        return name, {"kind": kind, "rule": rule, "bound": BOUNDS[name], "result": "success" if ok else ("failed" if fail else "error"),
+                      "wall_s": round(time.time() - t0, 1), "checks": int(checks.group(2)) if checks else None,
+                      "failed_checks": failed[:5], "tail": "" if ok else out[-600:]}
+    with cf.ThreadPoolExecutor(max_workers=6) as ex:
+        for name, r in ex.map(one, HARNESSES):
+            res["harnesses"][name] = r
+    if all(h["result"] in ("success", "failed") for h in res["harnesses"].values()):
+        os.makedirs(cdir, exist_ok=True)
+        json.dump(res, open(cpath, "w"))
     return res
 
 
 if __name__ == "__main__":
-    print(json.dumps(run(open(sys.argv[1]).read()), indent=1))
+    print(json.dumps(run(open(sys.argv[1]).read(), open(sys.argv[2]).read(), tag=(sys.argv[3] if len(sys.argv) > 3 else "leaf")), indent=1))
